@@ -69,7 +69,7 @@ def mutate_tree(rng, e, pool):
 
 def gen(rng, tier):
     lines, hists = [], []
-    nds = 14 if tier == "quick" else 80
+    nds = 14 if tier == "quick" else 400
     for i in range(nds):
         if i % 4 == 3:
             ds = dp.shaped_dataset(rng, "h%d" % i, rng.choice([300, 1001, 3000]))
